@@ -169,6 +169,7 @@ class Analyzer:
         self.force_ret = {}
         self.rule_c06a = False
         self.soft_widen_on = bool(os.environ.get("SOFT_WIDEN"))
+        self.split_returns = False   # keep the return paths of the outermost analysed body apart (tiny bodies only)
 
     # ------------------------------------------------------------ value helpers
     def default_value(self, st, ty, loc, hint="v"):
@@ -667,6 +668,7 @@ class Analyzer:
         work = collections.deque()
         PART = ("std::result::Result", "std::option::Option", "std::ops::ControlFlow")
         pre = fr + "._"
+        split_paths = self.split_returns and len(self.fn_stack) == 1 and not heads
         def pkey(s):
             out = []
             for l, v in s.mem.items():
@@ -681,6 +683,8 @@ class Analyzer:
                 return
             self.gc(s)
             k = (bb, pkey(s))
+            if split_paths:
+                k = (bb, k[1] + (("#path", next(_fid)),))
             if k not in instate:
                 instate[k] = s; work.append(k); return
             old = instate[k]
@@ -959,6 +963,8 @@ class Analyzer:
         return st
 
     def group_returns(self, rets):
+        if self.split_returns and len(self.fn_stack) == 1:
+            return [(s, v) for s, v in rets if not s.bottom]
         groups = {}
         for s, v in rets:
             if s.bottom: continue
@@ -1410,6 +1416,34 @@ class Analyzer:
                     cand_res = dict(head=hb, measure=desc, step=minstep, kind="const", lo=min(los), hi=max(his), iters=iters,
                                     text=f"step >= {minstep}; measure in [{min(los)}, {max(his)}] => at most {iters} iterations (constant)")
                     score = (0, iters)
+                    # a bound that is nothing but the range of the counter's integer type only says "the overflow check
+                    # panics first" (and nothing at all in a build without overflow checks): not a loop bound
+                    if len(combo) == 1:
+                        c0, s0 = combo[0]
+                        cty = H.mem.get(c0 + "#ty")
+                        if cty is None and c0.startswith(fr + "._") and c0[len(fr) + 2:].isdigit():
+                            cty = f["locals"][int(c0[len(fr) + 2:])]
+                        if cty is None and "." in c0:
+                            # field cell of a heap object: <root>.<field>[.<field>..] with the root's type recorded
+                            root, _, path = c0.partition(".")
+                            while cty is None and path:
+                                rty = H.mem.get(root + "#ty")
+                                cur = rty
+                                for nm in path.split("."):
+                                    a_ = self.adts.get(cur.get("adt")) if isinstance(cur, dict) and cur.get("k") == "adt" else None
+                                    cur = next((fd["ty"] for fd in a_["variants"][0]["fields"] if fd["name"] == nm), None) if a_ and a_.get("variants") else None
+                                    if cur is None: break
+                                if cur is not None:
+                                    cty = cur; break
+                                if "." not in path: break
+                                nxt, _, path = path.partition(".")
+                                root = root + "." + nxt
+                        if isinstance(cty, dict) and cty.get("k") == "int":
+                            tlo, thi = int_range(cty)
+                            if (s0 == 1 and max(his) >= thi) or (s0 == -1 and -min(los) <= tlo):
+                                cand_res = dict(head=hb, measure=desc, step=minstep, kind="type-range",
+                                                text=f"step >= {minstep}; the only bound of the counter is the range of its type [{tlo}, {thi}] (i.e. the overflow check)")
+                                score = (3, 0)
                 else:
                     rel = None
                     for pk, H, A in arrivals:
@@ -2015,6 +2049,13 @@ MODELS = {
     "core::array::<impl std::ops::IndexMut<I> for [T; N]>::index_mut": m_array_index,
     "std::option::Option::<T>::map_or": m_opaque,
     "std::option::Option::<T>::map_or_else": m_opaque,
+    # read-only predicates / peeks on a slice: no panic, no effect, result unknown
+    "core::slice::<impl [T]>::ends_with": m_opaque,
+    "core::slice::<impl [T]>::starts_with": m_opaque,
+    "core::slice::<impl [T]>::contains": m_opaque,
+    "core::slice::<impl [T]>::last": m_opaque,
+    "core::slice::<impl [T]>::first": m_opaque,
+    "core::slice::<impl [u8]>::eq_ignore_ascii_case": m_opaque,
     "std::str::from_utf8": m_opaque,
     "core::str::converts::from_utf8": m_opaque,
     "hex::decode": m_opaque,
